@@ -101,6 +101,16 @@ pub fn cq_rule_api(r: &Value, html_dropped: &mut bool, names: &mut BTreeSet<Stri
         cq_obool(&r["log_override"]), cq_obool(&r["reset"]), cq_obool(&r["stop"]), cq_on(&src["sampling"]))
 }
 
+/// the unit fields of a rule (crate JSON) beside its `rule` term: a Coq `urule` of RIO.UnitTrace
+pub fn cq_urule_api(r: &Value, html_dropped: &mut bool, names: &mut BTreeSet<String>) -> String {
+    let hfs: Vec<Value> = r["header_filters"].as_array().cloned().unwrap_or_default();
+    let bfs: Vec<Value> = r["body_filters"].as_array().cloned().unwrap_or_default().into_iter().filter(|f| f.get("content").is_some()).collect();
+    let unit = |f: &Value| format!("({}, {})", cq_ostr(&f["id"]), cq_ostr(&f["target_hash"]));
+    format!("{{| u_rule := {}; u_redirect_unit := {}; u_target_hash := {}; u_log_unit := {}; u_reset_unit := {}; u_hf_units := {}; u_bf_units := {} |}}",
+        cq_rule_api(r, html_dropped, names), cq_ostr(&r["redirect_unit_id"]), cq_ostr(&r["target_hash"]), cq_ostr(&r["configuration_log_unit_id"]),
+        cq_ostr(&r["configuration_reset_unit_id"]), cq_list(&hfs, unit), cq_list(&bfs, unit))
+}
+
 /// the crate's Action (through its JSON) as a Coq `action` term
 pub fn cq_action(a: &Value) -> String {
     let scu = match &a["status_code_update"] {
